@@ -966,6 +966,10 @@ func nameMatches(name, pat string) bool {
 	if strings.HasSuffix(name, pat) {
 		return true
 	}
+	// a step of a range loop is named range.next#k (k as in loop#k); the pattern range.next matches every loop
+	if strings.HasPrefix(name, "range.next#") && pat == "range.next" {
+		return true
+	}
 	// receiver written without its package qualifier: (*AccountingBook).m matches (*accountant.AccountingBook).m
 	if strings.HasPrefix(name, "(") {
 		if i := strings.Index(name, ")"); i > 0 {
